@@ -1088,7 +1088,12 @@ class TorConfig:
                             initial = [initial]
                     except KeyError:
                         default_key = '__{}'.format(name[:-5])
+                        before = self.config.get(rn)
                         default = yield self.protocol.get_conf_single(default_key)
+                        if self.config.get(rn) is not before:
+                            # a CONF_CHANGED for this option arrived while
+                            # we were asking; what it announced is newer
+                            continue
                         if not default or default == DEFAULT_VALUE:
                             initial = []
                         else:
